@@ -147,9 +147,7 @@ def main():
     #    thorough: a seeded 1/60 of the 4096 ordered assignments of 4 windows over 8 curves)
     mc = hvsrobj.cfg_text(1, nw, 6, alpha, "Ranges6", "NSetA", "MaxItsA", "InitSorted" if quick else "InitEnv", export=False,
                           invariants=["TypeOK", "PeaksCurrent", "AccFnHavePeaks"], props=["TdStep", "CurvesFixed"])
-    res, _ = hvsrobj.export_graph(mc, "C05-mc", {"VERIF_K": 60, "VERIF_SEED": run.seed}, timeout=3600, coverage=True)
-    from vcommon import require_coverage
-    run.notes["action_coverage"] = require_coverage(res, ["UpdateRange", "TdReject", "ManualReject", "Fdwra"], "C05-mc")
+    res, _ = hvsrobj.export_graph(mc, "C05-mc", {"VERIF_K": 60, "VERIF_SEED": run.seed}, timeout=3600)
     run.add_tlc(res, "HvsrObject exhaustive (I tier), invariants TypeOK/PeaksCurrent/AccFnHavePeaks/TdStep/CurvesFixed")
     # 1b. the implementation-shaped accessor (estimator over the mask, blind to missing peaks) agrees with the
     #     property iff NoPeaklessAccepted; TLC must find the history that breaks it (non-vacuity of the model)
@@ -163,18 +161,40 @@ def main():
     if nres.violated != "NoPeaklessAccepted":
         raise hvsrobj.MachineryError("negative configuration did not produce the expected counterexample")
     # 2. export + replay
-    k = 40 if quick else 400
+    k = 60 if quick else 400
     ex = hvsrobj.cfg_text(1, nw, 6, alpha, "Ranges6", "NSetA", "MaxItsA", "InitEnv", export=True)
-    res, graph = hvsrobj.export_graph(ex, "C05-export", {"VERIF_K": k, "VERIF_SEED": run.seed}, timeout=2400)
+    res, graph = hvsrobj.export_graph(ex, "C05-export", {"VERIF_K": k, "VERIF_SEED": run.seed}, timeout=2400, coverage=True)
+    from vcommon import require_coverage       # non-vacuity: every action of the state machine was taken in the replayed graph
+    run.notes["action_coverage"] = require_coverage(res, ["UpdateRange", "TdReject", "ManualReject", "Fdwra"], "C05-export")
     run.add_tlc(res, f"HvsrObject export, initial assignments with hash bucket {run.seed} mod {k}")
     consts = (f"  NA = 1\n  NW = {nw}\n  NF = 6\n  Alphabet <- {alpha}\n  Ranges <- Ranges6\n  NSet <- NSetA\n"
-              f"  MaxIts <- MaxItsA\n  TdMasks <- AllMasks\n  InitSel <- InitAll\n  SThr <- SThrHalf\n")
-    rp = hvsrobj.Replayer(run, hvsrpy, graph, ALPHA6[:alpha_n], 1, nw, 6, consts, focus={"ManualReject", "Init"})
+              f"  MaxIts <- MaxItsA\n  TdMasks <- AllMasks\n  Boxes <- Boxes6\n  InitSel <- InitAll\n  SThr <- SThrHalf\n")
+    rp = hvsrobj.Replayer(run, hvsrpy, graph, ALPHA6[:alpha_n], 1, nw, 6, consts, focus={"ManualReject", "ManualSession", "Init"})
+    import random
+    pick = random.Random(run.seed)
+    # the interactive session draws a figure per call: replay a seeded share of its transitions, mostly those in
+    # which the box actually removes a window
+    share_hit, share_miss = (0.08, 0.005) if quick else (0.05, 0.003)
+    sess_filter = lambda a, t: a["op"] != "ManualSession" or pick.random() < (share_hit if t["t"]["vw"] != t["s"]["vw"] or t["t"]["r"] != t["s"]["r"] else share_miss)
     hook = StatsHook(run, hvsrpy)
     for fenc, aenc in (("N", "N"), ("L", "L"), ("N", "L"), ("L", "N")):
-        rp.replay(hvsrobj.Instance(6, fenc, aenc), state_hook=hook, step_hook=hook.light)
+        rp.replay(hvsrobj.Instance(6, fenc, aenc), state_hook=hook, step_hook=hook.light, trans_filter=sess_filter)
     rp.validate_pending()
     run.notes["replay"] = rp.stats
+    # 3. the interactive manual rejection from EVERY initial assignment (chains of boxes), driven through the real
+    #    manual_window_rejection with a scripted pointer; a seeded share of the sessions in which the box removes a window
+    exm = hvsrobj.cfg_text(1, 3, 6, "Alpha6a", "Ranges6s", "NSetA", "MaxItsA", "InitAll", export=True, boxes="Boxes6", props=["ManualStep"],
+                           nxt="NextManualOnly")
+    res, gm = hvsrobj.export_graph(exm, "C05-manual", {}, timeout=2400)
+    run.add_tlc(res, "HvsrObject NextManualOnly from all 216 assignments: ManualStep (never re-accepts, removes exactly the boxed windows)")
+    constsm = consts.replace(f"NW = {nw}", "NW = 3").replace(alpha, "Alpha6a").replace("Ranges6\n", "Ranges6s\n")
+    rpm = hvsrobj.Replayer(run, hvsrpy, gm, ALPHA6[:6], 1, 3, 6, constsm, focus={"ManualSession", "Init"})
+    shm = (0.15, 0.005) if quick else (0.9, 0.03)
+    mfilter = lambda a, t: pick.random() < (shm[0] if any(x and not y for x, y in zip(t["s"]["vw"][0], t["t"]["vw"][0])) and t["t"]["r"] == t["s"]["r"] else shm[1])
+    for fenc, aenc in (("N", "N"), ("L", "L")):
+        rpm.replay(hvsrobj.Instance(6, fenc, aenc), trans_filter=mfilter)
+    rpm.validate_pending()
+    run.notes["replay_manual_sessions"] = rpm.stats
     run.notes["accessor_comparisons"] = hook.n
     return run.finish(
         rule="every transition of the exported HvsrObject graph (range updates, FDWRA, time-domain and manual "
